@@ -104,8 +104,26 @@ func (m *Cooldown) AfterScan(ctx *h.ScanCtx) []h.Violation {
 			m.Seen[fmt.Sprintf("in-window:%s:+%d:%s:w%d", g.Name, int64(ctx.Start.Sub(a)/time.Second), d.Class, len(writes))] = struct{}{}
 			ctx.H.Cov["c02.scans-in-window"]++
 		}
-		// (ii) the lock does not outlive the period
-		if hasA && ctx.Start.Sub(a) >= cool && !ctx.Faulted && ctx.Res.Err == nil && ctx.Res.Panic == nil && !ctx.Res.Killed {
+		// (ii) the lock does not outlive the period. What counts is the moment the group's lock is
+		// consulted (its first call of the scan): a failing refresh makes RunOnce sleep before that, so a
+		// scan that began inside the window may reach the group after it. Such scans (their only injected
+		// failures being DescribeAutoScalingGroups) are judged too.
+		tCheck := ctx.Start
+		for _, e := range ctx.Entries {
+			if e.Phase == "group" && e.Group == g.Name {
+				tCheck = e.T
+				break
+			}
+		}
+		onlyRefreshFaults := true
+		for _, e := range ctx.Entries {
+			// (a DescribeAutoScalingGroups made while the group is processed belongs to a fleet scale-up: if
+			// that one fails the scale-up legitimately fails)
+			if (e.Err == "injected" && (e.Op != sim.OpDescribeASG || e.Phase == "group")) || e.Err == "conflict" {
+				onlyRefreshFaults = false
+			}
+		}
+		if hasA && tCheck.Sub(a) >= cool && (!ctx.Faulted || onlyRefreshFaults) && ctx.Res.Err == nil && ctx.Res.Panic == nil && !ctx.Res.Killed {
 			d := ref.Decide(g, ctx.Start)
 			headroom := int64(g.Max)
 			if g.CloudMax < headroom {
@@ -205,6 +223,11 @@ func C02Scenarios(tier string) []*h.Scenario {
 			},
 			// a failing DescribeAutoScalingGroups makes RunOnce rebuild the provider mid-window
 			FaultOps: map[string]bool{sim.OpSetDesired: true, sim.OpAttach: true, sim.OpCreateFleet: true, sim.OpDescribeASG: true},
+		}
+		if withTainted {
+			// the Node delete that follows an accepted termination may fail (no later run may finish it
+			// inside a cool-down)
+			s.FaultOps[sim.OpK8sDelete] = true
 		}
 		return s
 	}
